@@ -30,6 +30,9 @@ type c05Case struct {
 	Items     []c05Item `json:"items"`
 	Chunks    []int     `json:"chunks,omitempty"`
 	End       string    `json:"end"` // open close halfclose
+	// Glued (TCP): the whole feed leaves the server in the same write as the last reply of the negotiation (bind result,
+	// <enabled/>, component <handshake/>), so it is already buffered on the client side when the receive loop starts
+	Glued bool `json:"glued,omitempty"`
 }
 
 var c05Kinds = []string{"m", "m", "m", "p", "p", "iq-result", "iq-error", "iq-get", "iq-set", "r", "r", "a", "a0", "features", "enabled", "success"}
@@ -75,6 +78,10 @@ func genC05(t *rapid.T) c05Case {
 		}
 	}
 	c.End = rapid.SampledFrom([]string{"open", "open", "close", "halfclose", "streamerror"}).Draw(t, "end")
+	if c.Transport == "tcp" && rapid.IntRange(0, 4).Draw(t, "glued") == 0 {
+		c.Glued = true
+		c.Chunks = nil
+	}
 	return c
 }
 
@@ -139,6 +146,19 @@ func runC05(c c05Case) vh.Result {
 	failc := make(chan peerObs, 1)
 	fedc := make(chan struct{})
 	script := &peer.Script{Mechs: []string{"PLAIN"}, OfferSM: c.SM == "on", SMId: "sm-c05"}
+	var feed strings.Builder
+	for i, it := range c.Items {
+		feed.WriteString(c05ItemXML(it, fmt.Sprintf("s%d", i), false))
+	}
+	glued := c.Glued && c.Transport == "tcp"
+	if glued {
+		res.Label("feed-glued-to-last-negotiation-reply")
+		last := "bind"
+		if c.SM == "on" {
+			last = "enable"
+		}
+		script.Glue = map[string]string{last: feed.String()}
+	}
 
 	rec := newRecorder()
 	var disconnect func()
@@ -220,7 +240,11 @@ func runC05(c c05Case) vh.Result {
 					failc <- o
 					return
 				}
-				pc.Send("<handshake/>")
+				if glued {
+					pc.Send("<handshake/>" + feed.String())
+				} else {
+					pc.Send("<handshake/>")
+				}
 				o.established = true
 			} else {
 				out := pc.Negotiate(script, 10*time.Second)
@@ -231,11 +255,9 @@ func runC05(c c05Case) vh.Result {
 					return
 				}
 			}
-			var sb strings.Builder
-			for i, it := range c.Items {
-				sb.WriteString(c05ItemXML(it, fmt.Sprintf("s%d", i), false))
+			if !glued {
+				pc.SendChunks(feed.String(), c.Chunks)
 			}
-			pc.SendChunks(sb.String(), c.Chunks)
 			close(fedc)
 			deadline := time.Now().Add(vh.Margin(1500 * time.Millisecond))
 			for countAnswers(pc.Transcript()) < nR && time.Now().Before(deadline) && c.Entity == "client" {
@@ -396,7 +418,7 @@ func peer10s() time.Duration { return 10 * time.Second }
 
 var c05 = vh.Define(&vh.Def[c05Case]{
 	Property: "C05", Name: "inbound",
-	Rule: "inbound histories of 0-40 top-level elements (message, presence, iq result/error/get/set with unique ids and sizes from empty to 30 KB, <r/>, <a/> with a huge and with a zero h, stream features, <enabled/>, SASL success) x {client over TCP, client over WebSocket, component over TCP} x stream management {negotiated, requested but not offered, off} x a segmentation (TCP write sizes 1-9000 / WebSocket continuation frames) x ending {stay open, close, half-close, stream error}; a catch-all route records what is routed; oracle: after quiescence the multiset of routed ids equals the multiset sent (exactly once each, none foreign), components route in arrival order, with SM on every <r/> is answered (exactly once when the server sent no <a/>); the process must survive (the driver turns a process death into a violation with the journalled case); non-trivial = >= 3 stanzas and (a non-stanza element, a stanza > 4 KB, or a closing end)",
+	Rule: "inbound histories of 0-40 top-level elements (message, presence, iq result/error/get/set with unique ids and sizes from empty to 30 KB, <r/>, <a/> with a huge and with a zero h, stream features, <enabled/>, SASL success) x {client over TCP, client over WebSocket, component over TCP} x stream management {negotiated, requested but not offered, off} x a segmentation (TCP write sizes 1-9000 / WebSocket continuation frames; or, over TCP, the whole feed in the same write as the last negotiation reply - bind result, <enabled/>, component <handshake/>) x ending {stay open, close, half-close, stream error}; a catch-all route records what is routed; oracle: after quiescence the multiset of routed ids equals the multiset sent (exactly once each, none foreign), components route in arrival order, with SM on every <r/> is answered (exactly once when the server sent no <a/>); the process must survive (the driver turns a process death into a violation with the journalled case); non-trivial = >= 3 stanzas and (a non-stanza element, a stanza > 4 KB, or a closing end)",
 	Quick: 1200, Thorough: 40000, Journal: true,
 	Gen: genC05, Run: runC05,
 })
